@@ -47,17 +47,17 @@ theorem atDiv_of_token {text : List Char} {c : Token} (hri : RuleInfo text c) (h
     simp at htk
     exact ⟨xs, by rw [htk]⟩
 
-theorem plyToken_initial_atDiv {text : List Char} {p : Nat} (h : AtDiv text p) :
-    plyToken .initial text p = .tok "DIV" p 1 := by
+theorem plyToken_initial_atDiv {text : List Char} {p : Nat} (h : AtDiv text p) (ap : Bool) :
+    plyToken .initial text p ap = .tok "DIV" p 1 := by
   obtain ⟨cs, hd⟩ := h.rest
   unfold plyToken
   simp only [hd, spanLen, slash_not_ignored]
   simp only [Bool.false_eq_true, if_false, List.drop_zero, Nat.add_zero]
   rw [← hd, firstMatch_of_FirstMatch _ _ _ _ h.first]
-  simp [ruleType]
+  simp [ruleFn, ruleType]
 
-theorem plyToken_regex_atDiv {text : List Char} {p : Nat} (h : AtDiv text p) (q : Nat) :
-    plyToken .regex text p ≠ .eof q := by
+theorem plyToken_regex_atDiv {text : List Char} {p : Nat} (h : AtDiv text p) (q : Nat) {ap : Bool} :
+    plyToken .regex text p ap ≠ .eof q := by
   obtain ⟨cs, hd⟩ := h.rest
   unfold plyToken
   simp only [hd, spanLen, slash_not_ignored]
